@@ -65,9 +65,13 @@ def work(item):
     res = {"kind": kind, "shape": shape, "paths_total": total_paths, "dropped": dropped, "runs": 0, "agree": 0,
            "rejected": 0, "inconclusive": [], "problems": [], "nodes": nodes, "depth": depth,
            "fail_expected": 0, "stats": {}, "sample": None}
+    # half of the random programs and the sys-prec family are printed with the fewest parentheses the
+    # precedence table allows, so the grouping of operators is decided by the real parser
+    minimal = shape[0] == "sys-prec" if kind != "rand" else arg % 2 == 1
+    res["minimal_parentheses"] = minimal
     for p in paths:
         dec, st, lines, fk, stats = p
-        src = cf.render(prog, dec, uses_take)
+        src = cf.render(prog, dec, uses_take, minimal=minimal)
         out = check_path(src, (dec, st, lines, fk))
         res["runs"] += 1
         if st == 'fail':
@@ -124,6 +128,7 @@ def run(ctx):
             out.inconclusive.append(str(res)[-500:])
             continue
         agg["programs"] += 1
+        agg["programs_printed_with_minimal_parentheses"] = agg.get("programs_printed_with_minimal_parentheses", 0) + bool(res.get("minimal_parentheses"))
         agg["paths_total"] += res["paths_total"]
         agg["paths_dropped_over_bound"] += res["dropped"]
         agg["agree"] += res["agree"]
@@ -155,7 +160,9 @@ def run(ctx):
     out.coverage.update(agg)
     out.rule = ("programs = systematic skeleton family (every construct nested in every other, 2%s levels, with "
                 "break/continue/return at the innermost level; from-loop matrix to|through x step x counter kind x "
-                "bounds x exit) + seeded random programs (depth<=5, <=80 statements); each program is run once per "
+                "bounds x exit; sys-prec: every well-typed pair of binary/unary operators in both groupings, printed "
+                "with the fewest parentheses) + seeded random programs (depth<=5, <=80 statements, every second one "
+                "printed with minimal parentheses so the real parser decides the grouping); each program is run once per "
                 "driver outcome vector (all vectors up to %d decisions, capped at %d per program). evaluations = "
                 "executions of the real binary compared line-by-line with the model. Non-trivial/distinct = distinct "
                 "construct-shape of a program that contains a loop and produced a comparable run."
